@@ -1,5 +1,6 @@
 """C09 — Re-running after any edit or interruption converges to the clean build."""
 import os
+import subprocess
 import shutil
 import stat
 import time
@@ -12,32 +13,66 @@ from harness import nano, cli, common
 PID = "C09"
 LEAN_MODULE = "NanoVerif.Props.C09"
 OBLIGATIONS = [
+    "NanoVerif.C09.reach_wf",
+    "NanoVerif.C09.history_converges",
+    "NanoVerif.C09.history_converges_final",
+    "NanoVerif.C09.removed_visible",
+    "NanoVerif.converges_of_wf",
+    "NanoVerif.wf_invoke",
+    "NanoVerif.wf_edit",
+    "NanoVerif.wf_fault",
     "NanoVerif.C09.edit_then_invoke_converges",
     "NanoVerif.C09.option_change_converges",
     "NanoVerif.C09.converges_fails_old_mtime",
+    "NanoVerif.C09.converges_fails_unlogged_output",
     "NanoVerif.C09.noop_rebuild",
     "NanoVerif.C10.inventory_closed",
 ]
 DESIGN_REF = "DESIGN.md §5 C09"
-LEVEL_TEXT = ("Weak partial proof + history exploration. In Lean: an executable transcription of ninja's dirty rule on a chain of edges, with "
-              "kernel-evaluated instances (edit-then-rebuild and option-change converge; no-op rebuild; and the COUNTER-statement F6: a source replaced "
-              "by a file with an older mtime is not rebuilt) and the kernel-decided inventory theorem that every option reaches the rewritten "
-              "per-config TOML (a declared input). The universal convergence theorem is NOT proved. The property is explored on the REAL CLI + ninja: "
-              "histories over {add, modify, remove, rename-over source, change option, step fails leaving a truncated output, driver run without "
-              "executing ninja} on one build directory; after each history one more invocation must exit 0 and produce byte-for-byte the font of a "
-              "clean build of the final inputs; an invocation in which a step fails must exit non-zero.")
-LEVEL_NOTE = ("F6 (older-mtime rename) is inherent to ninja's mtime model: known finding, excluded from random histories (all generated edits get fresh "
-              "mtimes). OS crash consistency / clock skew not covered. Trusted: Lean kernel, harness.")
-TECHNIQUE = "executable Lean model of ninja's dirty rule with kernel-evaluated instances and a counterexample theorem + CLI history exploration with fault injection"
+LEVEL_TEXT = ("Proof on a model of ninja + history exploration. In Lean: an executable transcription of ninja 1.13's dirty rule (RecomputeOutputDirty: "
+              "missing output, output older than input, no log entry, command hash differs, logged start time older than input, upstream dirty; a failed "
+              "command leaves its output and writes no log entry) on a chain of edges of any length, and the theorem `history_converges`: for EVERY history "
+              "of edits with fresh mtimes, successful invocations with arbitrary changing command lines, and failing invocations at any edge that leave "
+              "nothing / the old file / a truncated file / a complete unlogged file, provided the failure stays visible to ninja (mtime or log grounds), "
+              "one more successful invocation with any command list gives exactly the contents of the clean build of the final source (invariant + "
+              "induction over the history, no bound on lengths). The two ways out of the hypothesis are proved as counter-statements: F6 (older-mtime "
+              "rename) and F7 (option that only reaches a command line changed, step fails after writing, option changed back). The model is tied to the "
+              "REAL ninja binary: random histories of edits, old-mtime renames, command changes and injected step failures run through /venv/bin/ninja "
+              "on a 3-edge chain of shell steps and through the model, comparing file contents and the set of re-run edges after every operation. The "
+              "inventory theorem shows every option reaches the rewritten per-config TOML (a declared input). The property itself is explored on the "
+              "REAL CLI: histories over {add, modify, remove, rename-over source, change option, step fails leaving a truncated output, driver run "
+              "without executing ninja}; after each history one more invocation must exit 0 and produce byte-for-byte the clean build's font; an "
+              "invocation in which a step fails must exit non-zero.")
+LEVEL_NOTE = ("The theorem is about a chain (one source, linear edges), nanoemoji's graph is a DAG of such chains joined at write_font; that the real "
+              "graph lists every real input is checked by the CLI histories, not proved. F6 and F7 are inherent to ninja's mtime/log model: known findings "
+              "with witnesses replayed on the real CLI every run; random CLI histories stay inside the theorem's hypothesis. OS crash consistency / "
+              "clock skew / driver killed while writing build.ninja not covered. Trusted: Lean kernel, harness, the ninja binary as observed.")
+TECHNIQUE = ("Lean 4 invariant proof over all histories on an executable model of ninja's dirty rule + differential correspondence of that model with the "
+             "real ninja binary + CLI history exploration with fault injection")
 ASSUMPTIONS = ["every content change of an existing path gets an mtime newer than the previous build (MonotoneMtime)"]
 
 FAIL_SHIM = """#!/bin/sh
-# fault-injecting picosvg: fails (after writing a truncated output) when the marker file exists
+# fault-injecting picosvg / resvg: when the marker file exists (and names this tool, or names none) the step fails,
+# either after writing a truncated output or ("late") after doing all its work
+tool=$(basename "$0")
 if [ -f "$NV_FAULT_MARKER" ]; then
-  for a in "$@"; do prev="$cur"; cur="$a"; if [ "$prev" = "--output_file" ]; then printf '<svg' > "$a"; fi; done
-  exit 3
+  m=$(cat "$NV_FAULT_MARKER")
+  case "$m" in *:*) want=${m%%:*}; mode=${m#*:};; *) want=picosvg; mode=$m;; esac
+  if [ "$want" = "$tool" ]; then
+    if [ "$mode" = "late" ]; then
+      /venv/bin/$tool "$@"
+      exit 3
+    fi
+    if [ "$tool" = "picosvg" ]; then
+      for a in "$@"; do prev="$cur"; cur="$a"; if [ "$prev" = "--output_file" ]; then printf '<svg' > "$a"; fi; done
+    else
+      for a in "$@"; do last="$a"; done
+      printf '\\211PNG' > "$last"
+    fi
+    exit 3
+  fi
 fi
-exec /venv/bin/picosvg "$@"
+exec /venv/bin/$tool "$@"
 """
 
 
@@ -70,8 +105,9 @@ def run_history(job):
         src.mkdir()
         shim = d / "shim"
         shim.mkdir()
-        (shim / "picosvg").write_text(FAIL_SHIM)
-        (shim / "picosvg").chmod(0o755)
+        for tool in ("picosvg", "resvg"):
+            (shim / tool).write_text(FAIL_SHIM)
+            (shim / tool).chmod(0o755)
         marker = d / "FAULT"
         env = {"PATH": f"{shim}:{cli.BASE_ENV['PATH']}", "NV_FAULT_MARKER": str(marker)}
         files = {f"emoji_u{0x1F600 + i:x}.svg": svg(i) for i in range(3)}
@@ -128,6 +164,13 @@ def run_history(job):
                 log.append(("invoke-fault", rc))
                 if rc == 0:
                     fault_nonzero_ok = False
+            elif kind in ("invoke-fault-pure", "invoke-fault-late"):
+                # no edit: the step only runs if something else (an option that reaches its command line) made it dirty
+                tool = ev[1] if len(ev) > 1 else "picosvg"
+                marker.write_text(tool + ":" + ("late" if kind.endswith("late") else "trunc"))
+                rc, out = invoke()
+                marker.unlink()
+                log.append((kind, rc))
             elif kind == "driver-only":
                 rc, out = invoke(["--noexec_ninja"])
                 log.append(("driver-only", rc))
@@ -154,6 +197,169 @@ def run_history(job):
         return res
     finally:
         shutil.rmtree(d, ignore_errors=True)
+
+
+
+# ------------------------------------------------------------------------------------------
+# Tie K for the ninja model: the Lean chain model and the real ninja binary run the same histories
+# ------------------------------------------------------------------------------------------
+
+STEP_SH = """#!/bin/sh
+k=$1; cmd=$2; in=$3; out=$4
+echo $k >> trace
+if [ -f FAULT ] && [ "$(cut -d: -f1 FAULT)" = "$k" ]; then
+  mode=$(cut -d: -f2 FAULT)
+  case "$mode" in removed) rm -f "$out";; kept) ;; late) echo $(( $(cat "$in") * 31 + cmd * 7 + k + 1 )) > "$out";; *) echo "$mode" > "$out";; esac
+  exit 1
+fi
+echo $(( $(cat "$in") * 31 + cmd * 7 + k + 1 )) > "$out"
+"""
+
+N_EDGES = 3
+
+
+def gen_ninja_history(rng):
+    cmds = [rng.choice([5, 6]) for _ in range(N_EDGES)]
+    ops = [["invoke", list(cmds)]]
+    for _ in range(rng.randint(2, 7)):
+        r = rng.random()
+        if r < 0.25:
+            ops.append(["edit", rng.randint(1, 999)])
+        elif r < 0.35:
+            ops.append(["rename", rng.randint(1, 999), rng.randint(1, 999)])
+        elif r < 0.65:
+            cmds = list(cmds)
+            if rng.random() < 0.6:
+                cmds[rng.randrange(N_EDGES)] = rng.choice([5, 6, 9])
+            ops.append(["invoke", cmds])
+        else:
+            c2 = list(cmds)
+            if rng.random() < 0.6:
+                c2[rng.randrange(N_EDGES)] = rng.choice([5, 6, 9])
+            ops.append(["fault", c2, rng.randrange(N_EDGES), rng.choice(["removed", "kept", rng.randint(1, 999), "late"])])
+    ops.append(["invoke", list(cmds)])
+    return ops
+
+
+def run_real_ninja(job):
+    hid, src0, ops = job
+    d = common.scratch_dir("c09n")
+    states = []
+    try:
+        (d / "step.sh").write_text(STEP_SH)
+        base = int(time.time())
+        (d / "src").write_text(str(src0))
+
+        def write_ninja(cmds):
+            lines = ["rule step", "  command = sh step.sh $k $cmd $in $out", ""]
+            for k, c in enumerate(cmds):
+                lines += [f"build o{k}: step {'src' if k == 0 else 'o%d' % (k - 1)}", f"  k = {k}", f"  cmd = {c}", ""]
+            (d / "build.ninja").write_text("\n".join(lines))
+
+        def contents():
+            out = []
+            for k in range(N_EDGES):
+                p = d / f"o{k}"
+                out.append(p.read_text().strip() if p.exists() else None)
+            return out
+
+        def ninja():
+            (d / "trace").write_text("")
+            p = subprocess.run(["/venv/bin/ninja", "-C", str(d)], capture_output=True, text=True)
+            ran = sorted({ln.strip() for ln in (d / "trace").read_text().splitlines() if ln.strip()})
+            return p.returncode, ran
+
+        for op in ops:
+            time.sleep(0.03)
+            if op[0] == "edit":
+                (d / "src").write_text(str(op[1]))
+                states.append({"contents": contents()})
+            elif op[0] == "rename":
+                tmp = d / "older"
+                tmp.write_text(str(op[1]))
+                t = base - 2000 + op[2]
+                os.utime(tmp, (t, t))
+                os.replace(tmp, d / "src")
+                states.append({"contents": contents()})
+            elif op[0] == "invoke":
+                write_ninja(op[1])
+                rc, ran = ninja()
+                states.append({"contents": contents(), "ran": ran, "rc": rc})
+            elif op[0] == "fault":
+                write_ninja(op[1])
+                (d / "FAULT").write_text(f"{op[2]}:{op[3]}")   # removed | kept | late | <garbage number>
+                rc, ran = ninja()
+                (d / "FAULT").unlink()
+                states.append({"contents": contents(), "rc": rc, "ran_all": ran})
+        return {"hid": hid, "states": states}
+    finally:
+        shutil.rmtree(d, ignore_errors=True)
+
+
+def suite_ninja_model(ctx, res, n):
+    """Same histories through /venv/bin/ninja (3-edge chain of `sh step.sh`) and through the Lean model."""
+    jobs = []
+    for i in range(n):
+        ops = gen_ninja_history(ctx.rng)
+        src0 = ctx.rng.randint(1, 999)
+        jobs.append((i, src0, ops))
+    # the F7 witness: option reaches only the command line, step dies after writing, option changed back
+    jobs.append((n, 100, [["invoke", [5, 6, 5]], ["fault", [5, 9, 5], 1, "late"], ["invoke", [5, 6, 5]]]))
+
+    def model_ops(src0, ops):
+        out = []
+        for op in ops:
+            if op[0] == "fault":
+                lv = op[3]
+                out.append(["fault", [str(c) for c in op[1]], str(op[2]), lv if lv in ("removed", "kept", "late") else str(lv)])
+            elif op[0] == "invoke":
+                out.append(["invoke", [str(c) for c in op[1]]])
+            elif op[0] == "edit":
+                out.append(["edit", str(op[1])])
+            else:
+                out.append(["rename", str(op[1]), str(op[2])])
+        return {"op": "ninja-history", "source": [str(src0), "1000"], "ops": out}
+
+    with ThreadPoolExecutor(max_workers=8) as ex:
+        reals = list(ex.map(run_real_ninja, jobs))
+    models = ctx.driver.run([model_ops(s, o) for _, s, o in jobs])
+    for (hid, src0, ops), r, m in zip(jobs, reals, models):
+        res.count(key=("ninja", stable_hash(ops), src0), nontrivial=len(ops) >= 4)
+        ms = m.get("states") if isinstance(m, dict) else None
+        if ms is None or len(ms) != len(r["states"]):
+            res.add_tie_break("ninja chain model (driver error)", {"ops": ops}, m, r["states"])
+            continue
+        for i, (op, rs, st) in enumerate(zip(ops, r["states"], ms)):
+            same = rs["contents"] == st["contents"]
+            if op[0] == "invoke":
+                same = same and rs["ran"] == st["ran"] and rs["rc"] == 0
+            if op[0] == "fault":
+                res.stat("ninja:fault:" + ("visible" if st["visible"] else "masked"))
+            if not same:
+                res.add_tie_break("ninja chain model vs real ninja", {"source": src0, "ops": ops, "step": i}, st, rs)
+                break
+        else:
+            res.stat("ninja:histories-agree")
+            # the theorem's claim on the real binary: after a history whose faults were all visible and without old-mtime renames,
+            # the final invocation reproduces the clean build
+            if all(st["visible"] for st in ms) and not any(op[0] == "rename" for op in ops):
+                clean = ctx.driver.run([{"op": "ninja-history", "source": [str(last_source(src0, ops)), "1000"],
+                                         "ops": [["invoke", [str(c) for c in ops[-1][1]]]]}])[0]["states"][0]["contents"]
+                res.stat("ninja:reach-histories")
+                if r["states"][-1]["contents"] != clean:
+                    res.add_cex("real ninja: a history inside the theorem's hypothesis does not converge to the clean build",
+                                {"source": src0, "ops": ops, "final": r["states"][-1]["contents"], "clean": clean},
+                                {"site": "c09-ninja-reach", "ops": ops})
+    if jobs:
+        res.sample({"suite": "ninja model vs real ninja", "ops": jobs[-1][2], "real": reals[-1]["states"][-1]})
+
+
+def last_source(src0, ops):
+    c = src0
+    for op in ops:
+        if op[0] in ("edit", "rename"):
+            c = op[1]
+    return c
 
 
 SCRIPTED = [
@@ -232,16 +438,39 @@ def run_known(ctx, res):
         shutil.rmtree(d, ignore_errors=True)
 
 
+def run_known_f7(ctx, res):
+    """F7 witnesses on the real CLI: bitmap_resolution reaches only the resvg command line; the step fails after writing; option reverted"""
+    for kind, tag in (("invoke-fault-late", "F7:unlogged-output-option-reverted"), ("invoke-fault-pure", "F7b:truncated-output-option-reverted")):
+        evs = [("option", "bitmap_resolution", 64), (kind, "resvg"), ("option", "bitmap_resolution", 128)]
+        r = run_history((900, evs, "cbdt"))
+        res.count(key=("known", tag), nontrivial=True)
+        if "infra" in r:
+            res.infra_errors.append(r["infra"])
+            continue
+        if r["final_rc"] != 0:
+            res.add_cex("option changed, resvg step fails leaving a truncated PNG, option changed back: every further invocation fails (ninja sees the "
+                        "edge as clean: logged command = current command)", {"events": evs, "log": r["log"], "tail": r.get("tail")},
+                        {"site": "c09-final-fails", "events": tag})
+        elif r.get("clean_rc") == 0 and r.get("same") is False:
+            res.add_cex("option changed, resvg step fails after writing its output, option changed back: exit 0 with bitmaps of the wrong resolution",
+                        {"events": evs, "log": r["log"], "diff_tables": r.get("diff_tables")}, {"site": "c09-stale", "events": tag})
+
+
 def run(ctx, res):
     nano.init()
-    res.rule = ("8 scripted histories + random histories of 2-5 events over {modify, add, remove, rename-over, option change (format/upem/width/reuse/names/clip), "
+    res.rule = ("ninja-model tie: random histories (3-9 ops over edit / old-mtime rename / invoke with changed commands / step failure leaving "
+                "nothing, the old file, garbage or a complete unlogged file) through the real ninja binary and the Lean model; "
+                "8 scripted histories + random histories of 2-5 events over {modify, add, remove, rename-over, option change (format/upem/width/reuse/names/clip), "
                 "invoke, invoke with a failing picosvg step that leaves a truncated output, driver without ninja}; 3 initial sources; every edit gets a fresh "
                 "mtime; final font compared byte-for-byte with a clean build; every history non-trivial")
+    suite_ninja_model(ctx, res, ctx.budget(40, 800))
     run_known(ctx, res)
+    run_known_f7(ctx, res)
     suite(ctx, res, ctx.budget(6, 60))
 
 
 def search(ctx, res, broken):
+    suite_ninja_model(ctx, res, 300)
     suite(ctx, res, 24)
 
 
